@@ -182,8 +182,10 @@ class Exponential(DPMechanism):
 
         rand = self._rng.random()
 
-        if np.any(rand <= self._probabilities):
-            idx = np.argmax(rand <= self._probabilities)
+        # rand is uniform on [0, 1): a strict comparison selects index i with probability exactly p_i, and never selects a
+        # candidate of probability zero (rand == 0)
+        if np.any(rand < self._probabilities):
+            idx = np.argmax(rand < self._probabilities)
         elif np.isclose(rand, self._probabilities[-1]):
             idx = len(self._probabilities) - 1
         else:
@@ -467,7 +469,7 @@ class ExponentialCategorical(DPMechanism):
         for _target_value in self._normalising_constant.keys():
             cum_prob += self._get_prob(value, _target_value)
 
-            if unif_rv <= cum_prob:
+            if unif_rv < cum_prob:  # strict: a target of probability zero is never selected (unif_rv == 0)
                 return _target_value
 
         return _target_value
